@@ -7,6 +7,15 @@ that is *mutated* by every binder, a fresh-id counter, and an explicit save/rest
 exactly where the Rust calls `enter_scope` (blocks, match arms, closures).
 `spec*` is the declarative reading of the property: the environment is an argument
 that is only ever passed *down*.
+
+Package-level names form the outermost scope (`Globals`): constructors (variants of the
+package's enums, structs of the file) and definitions (functions, externs, type names,
+builtins).  A bare name in expression position is looked up in the local environment FIRST
+(`resolveName`), then among the constructors, then among the definitions.  `ast/src/lower.rs`
+classifies a bare name by spelling before name resolution runs; its verdict arrives here as the
+node kind (`Expr.con` = "lowering said constructor"): the resolver never consults the local
+environment for such a node, the specification does, and `conOk*` is the decidable condition
+under which the two agree (lowering called no locally bound name a constructor).
 -/
 namespace Goml.Resolve
 
@@ -19,8 +28,11 @@ inductive Pat where
 
 mutual
 inductive Expr where
-  /-- single-segment path in expression position -/
+  /-- single-segment path in expression position (`EPath`, also as the callee of a call) -/
   | var (x : String) (tag : Nat)
+  /-- bare name that AST lowering classified as a constructor (`EConstr` with a one-segment
+      path), applied to `args` (none for a nullary use) -/
+  | con (x : String) (tag : Nat) (args : List Expr)
   /-- any expression form that binds nothing: children in the order the resolver visits them
       (call, operators, tuple, array, struct literal, if, while, go, field, proj, literals) -/
   | node (es : List Expr)
@@ -34,10 +46,31 @@ inductive Arm where
   | mk (p : Pat) (body : Expr)
 end
 
+/-- what a bare name in expression position refers to -/
+inductive Ref where
+  /-- the local binder with this id (parameter, let, pattern variable, closure parameter) -/
+  | loc (id : Nat)
+  /-- a constructor of the package -/
+  | ctor
+  /-- a package-level definition or a builtin -/
+  | defn
+  /-- nothing: `NameRef::Unresolved` -/
+  | unbound
+  deriving Repr, BEq, DecidableEq, Inhabited
+
+/-- package-level names visible unqualified in one file -/
+structure Globals where
+  /-- variants of the enums of the package (`ConstructorIndex`) and structs of the file
+      (`collect_constructor_names`) -/
+  ctors : List String
+  /-- `def_names` of the package and `builtin_names` -/
+  defs : List String
+  deriving Repr, Inhabited
+
 /-- observable result of resolution -/
 inductive Ev where
   | bind (id tag : Nat)
-  | use (tag : Nat) (res : Option Nat)
+  | use (tag : Nat) (res : Ref)
   deriving Repr, BEq, DecidableEq, Inhabited
 
 abbrev Env := List (String × Nat)
@@ -47,6 +80,13 @@ def lookup (env : Env) (x : String) : Option Nat :=
   match env.reverse.find? (fun p => p.1 == x) with
   | some p => some p.2
   | none => none
+
+/-- `resolve_expr`, `EPath` arm for a one-segment path: locals, then constructors, then
+    definitions and builtins -/
+def resolveName (G : Globals) (env : Env) (x : String) : Ref :=
+  match lookup env x with
+  | some i => .loc i
+  | none => if G.ctors.contains x then .ctor else if G.defs.contains x then .defn else .unbound
 
 structure St where
   env : Env
@@ -73,36 +113,38 @@ def resolveParams : List (String × Nat) → St → St
       { env := s.env ++ [(x, s.next)], next := s.next + 1, out := s.out ++ [Ev.bind s.next tag] }
 
 mutual
-def resolveExpr : Expr → St → St
-  | .var x tag, s => { s with out := s.out ++ [Ev.use tag (lookup s.env x)] }
-  | .node es, s => resolveList es s
+def resolveExpr (G : Globals) : Expr → St → St
+  | .var x tag, s => { s with out := s.out ++ [Ev.use tag (resolveName G s.env x)] }
+  -- the `EConstr` arm: the environment is not consulted
+  | .con _ tag args, s => resolveList G args { s with out := s.out ++ [Ev.use tag .ctor] }
+  | .node es, s => resolveList G es s
   | .block items, s =>
     -- `let mut block_env = env.enter_scope()` … the outer env is untouched
-    let s' := resolveItems items s
+    let s' := resolveItems G items s
     { s' with env := s.env }
-  | .matchE scrut arms, s => resolveArms arms (resolveExpr scrut s)
+  | .matchE scrut arms, s => resolveArms G arms (resolveExpr G scrut s)
   | .closure ps body, s =>
     let s1 := resolveParams ps s
-    let s2 := resolveExpr body s1
+    let s2 := resolveExpr G body s1
     { s2 with env := s.env }
-def resolveList : List Expr → St → St
+def resolveList (G : Globals) : List Expr → St → St
   | [], s => s
-  | e :: es, s => resolveList es (resolveExpr e s)
-def resolveItems : List Item → St → St
+  | e :: es, s => resolveList G es (resolveExpr G e s)
+def resolveItems (G : Globals) : List Item → St → St
   | [], s => s
-  | .letI p v :: rest, s => resolveItems rest (resolvePat p (resolveExpr v s))
-  | .exprI e :: rest, s => resolveItems rest (resolveExpr e s)
-def resolveArms : List Arm → St → St
+  | .letI p v :: rest, s => resolveItems G rest (resolvePat p (resolveExpr G v s))
+  | .exprI e :: rest, s => resolveItems G rest (resolveExpr G e s)
+def resolveArms (G : Globals) : List Arm → St → St
   | [], s => s
   | .mk p body :: rest, s =>
     let s1 := resolvePat p s
-    let s2 := resolveExpr body s1
-    resolveArms rest { s2 with env := s.env }
+    let s2 := resolveExpr G body s1
+    resolveArms G rest { s2 with env := s.env }
 end
 
-/-- `resolve_fn`: parameters first, then the body -/
-def resolveFn (params : List (String × Nat)) (body : Expr) : St :=
-  resolveExpr body (resolveParams params { env := [], next := 0, out := [] })
+/-- `resolve_fn`: parameters first (one fresh id each, in order), then the body -/
+def resolveFn (G : Globals) (params : List (String × Nat)) (body : Expr) : St :=
+  resolveExpr G body (resolveParams params { env := [], next := 0, out := [] })
 
 /-! ### specification (environment passed down only) -/
 
@@ -131,49 +173,54 @@ def paramBinds : List (String × Nat) → Nat → Env × List Ev × Nat
     ((x, n) :: r.1, Ev.bind n tag :: r.2.1, r.2.2)
 
 mutual
-def specExpr (env : Env) (n : Nat) : Expr → Out
-  | .var x tag => ⟨[Ev.use tag (lookup env x)], n⟩
-  | .node es => specList env n es
-  | .block items => specItems env n items
+def specExpr (G : Globals) (env : Env) (n : Nat) : Expr → Out
+  | .var x tag => ⟨[Ev.use tag (resolveName G env x)], n⟩
+  -- the property: however lowering classified it, a bare name refers to the innermost
+  -- enclosing local binder of that name, and to a package-level name only when there is none
+  | .con x tag args =>
+    let o := specList G env n args
+    ⟨Ev.use tag (resolveName G env x) :: o.evs, o.next⟩
+  | .node es => specList G env n es
+  | .block items => specItems G env n items
   | .matchE scrut arms =>
-    let o1 := specExpr env n scrut
-    let o2 := specArms env o1.next arms
+    let o1 := specExpr G env n scrut
+    let o2 := specArms G env o1.next arms
     ⟨o1.evs ++ o2.evs, o2.next⟩
   | .closure ps body =>
     let b := paramBinds ps n
-    let o := specExpr (env ++ b.1) b.2.2 body
+    let o := specExpr G (env ++ b.1) b.2.2 body
     ⟨b.2.1 ++ o.evs, o.next⟩
-def specList (env : Env) (n : Nat) : List Expr → Out
+def specList (G : Globals) (env : Env) (n : Nat) : List Expr → Out
   | [] => ⟨[], n⟩
   | e :: es =>
-    let o1 := specExpr env n e
-    let o2 := specList env o1.next es
+    let o1 := specExpr G env n e
+    let o2 := specList G env o1.next es
     ⟨o1.evs ++ o2.evs, o2.next⟩
 /-- a `let` extends the environment of the *rest of its block* only -/
-def specItems (env : Env) (n : Nat) : List Item → Out
+def specItems (G : Globals) (env : Env) (n : Nat) : List Item → Out
   | [] => ⟨[], n⟩
   | .letI p v :: rest =>
-    let o1 := specExpr env n v
+    let o1 := specExpr G env n v
     let b := patBinds p o1.next
-    let o3 := specItems (env ++ b.1) b.2.2 rest
+    let o3 := specItems G (env ++ b.1) b.2.2 rest
     ⟨o1.evs ++ b.2.1 ++ o3.evs, o3.next⟩
   | .exprI e :: rest =>
-    let o1 := specExpr env n e
-    let o3 := specItems env o1.next rest
+    let o1 := specExpr G env n e
+    let o3 := specItems G env o1.next rest
     ⟨o1.evs ++ o3.evs, o3.next⟩
 /-- the variables of an arm's pattern are visible in that arm's body only -/
-def specArms (env : Env) (n : Nat) : List Arm → Out
+def specArms (G : Globals) (env : Env) (n : Nat) : List Arm → Out
   | [] => ⟨[], n⟩
   | .mk p body :: rest =>
     let b := patBinds p n
-    let o1 := specExpr (env ++ b.1) b.2.2 body
-    let o2 := specArms env o1.next rest
+    let o1 := specExpr G (env ++ b.1) b.2.2 body
+    let o2 := specArms G env o1.next rest
     ⟨b.2.1 ++ o1.evs ++ o2.evs, o2.next⟩
 end
 
-def specFn (params : List (String × Nat)) (body : Expr) : Out :=
+def specFn (G : Globals) (params : List (String × Nat)) (body : Expr) : Out :=
   let b := paramBinds params 0
-  let o := specExpr b.1 b.2.2 body
+  let o := specExpr G b.1 b.2.2 body
   ⟨b.2.1 ++ o.evs, o.next⟩
 
 /-! ### declarative well-scopedness (names only, no ids) -/
@@ -188,9 +235,11 @@ def patsNames : List Pat → List String
 end
 
 mutual
-/-- every variable use has a binder of its name among the enclosing binders `Γ` -/
+/-- every bare name has a binder of its name among the enclosing binders `Γ` (package-level
+    names are the outermost entries of `Γ`) -/
 def scopedExpr (Γ : List String) : Expr → Bool
   | .var x _ => Γ.contains x
+  | .con x _ args => Γ.contains x && scopedList Γ args
   | .node es => scopedList Γ es
   | .block items => scopedItems Γ items
   | .matchE scrut arms => scopedExpr Γ scrut && scopedArms Γ arms
@@ -207,9 +256,37 @@ def scopedArms (Γ : List String) : List Arm → Bool
   | .mk p body :: rest => scopedExpr (Γ ++ patNames p) body && scopedArms Γ rest
 end
 
+mutual
+/-- AST lowering called no locally bound name a constructor: every `con x` names a constructor
+    of `G` and has no binder `x` among the enclosing LOCAL binders `Γ` -/
+def conOkExpr (G : Globals) (Γ : List String) : Expr → Bool
+  | .var _ _ => true
+  | .con x _ args => !Γ.contains x && G.ctors.contains x && conOkList G Γ args
+  | .node es => conOkList G Γ es
+  | .block items => conOkItems G Γ items
+  | .matchE scrut arms => conOkExpr G Γ scrut && conOkArms G Γ arms
+  | .closure ps body => conOkExpr G (Γ ++ ps.map (·.1)) body
+def conOkList (G : Globals) (Γ : List String) : List Expr → Bool
+  | [] => true
+  | e :: es => conOkExpr G Γ e && conOkList G Γ es
+def conOkItems (G : Globals) (Γ : List String) : List Item → Bool
+  | [] => true
+  | .letI p v :: rest => conOkExpr G Γ v && conOkItems G (Γ ++ patNames p) rest
+  | .exprI e :: rest => conOkExpr G Γ e && conOkItems G Γ rest
+def conOkArms (G : Globals) (Γ : List String) : List Arm → Bool
+  | [] => true
+  | .mk p body :: rest => conOkExpr G (Γ ++ patNames p) body && conOkArms G Γ rest
+end
+
 def allResolved (evs : List Ev) : Bool :=
   evs.all fun
-    | .use _ none => false
+    | .use _ .unbound => false
     | _ => true
+
+/-- ids handed out to binders, in order -/
+def bindIds (evs : List Ev) : List Nat :=
+  evs.filterMap fun
+    | .bind id _ => some id
+    | _ => none
 
 end Goml.Resolve
